@@ -15,6 +15,15 @@ CLAIMED = {
              note='process-kill crash model (no torn stores, no reordering, Python-level buffers lost); simulated open/mmap/rename validated byte-for-byte against real files by a pristine copy of journal.py on all sequences up to depth 2 (quick) / 3 (thorough)',
              ref='4/C08'),
 }
+RAFT_TECH = 'explicit-state BFS over worlds of real SyncObj nodes (every transition = one real tick / message handler / notification / API call), ghost-state monitors on every transition and state'
+RAFT_NOTE = 'environment model: per-link FIFO SimTransport, per-node virtual clocks, election timeout answered by the explorer; bounds = per-job event budgets from scripted seed states (evidence lists every job with its budget, state and transition counts); full alphabet for 2-3 voters, election alphabet for 4-5'
+for pid, txt, ref in [
+  ('C01', 'All schedules within the per-job budgets (elections, heartbeats, submissions, drops, reconnects, compactions) from seeds fresh/steady/lagging/lagging+snapshot/deposed/deposed+snapshot/pending/pipeline/forwarded/fig8; oracle in every state: each node object state equals the replay of the common sequence up to its applied index (no skip/repeat/reorder, also after snapshot install), position -> command is a function across nodes and time.', '4/C01'),
+  ('C02', 'Same schedules; oracle on every callback: at most once per submission; SUCCESS(r) => applied at exactly one position with r the reference result and never applied twice; negative answers => never applied on any node in any later state.', '4/C02'),
+  ('C03', 'Same schedules with election-heavy budgets; oracle: leaders[term] single-valued over the whole history, votes[(voter,term)] single-valued at the wire, at every become-leader transition every entry committed under an earlier term is in the new leader log or under its snapshot.', '4/C03'),
+  ('C04', 'Same schedules; oracle: at the transition at which any node commit index advances over p a majority of voters stores that (term, command) at p; every committed position stays on a majority in every state; a committed position never shows another entry on a node reporting it committed; commit/applied indices monotone; log matching between all node pairs.', '4/C04'),
+]:
+    CLAIMED[pid] = dict(engine='E1', technique=RAFT_TECH, text=txt, note=RAFT_NOTE, ref=ref)
 NOT_YET = {}
 for i in ids:
     if i not in CLAIMED:
@@ -36,7 +45,7 @@ m = dict(version=1,
          hooks=dict(guard='PYSYNCOBJ_VERIF', enable='no source hooks: every seam is a module-level rebind done by the harness (PYSYNCOBJ_VERIF=1 is exported by ./check but nothing in /repo reads it)',
                     baseline_off_cmd='cd /repo && /venv/bin/python -m pytest -ra -q -p no:cacheprovider --timeout=900 --continue-on-collection-errors',
                     source_commits=[], add_only=True),
-         engines=[dict(name='E1', path='mc/cluster.py', serves_properties=[], kind_free_text='explicit-state BFS over real SyncObj nodes with simulated transport/clock/files'),
+         engines=[dict(name='E1', path='mc/cluster.py', serves_properties=sorted(k for k, v in CLAIMED.items() if v['engine'] == 'E1'), kind_free_text='explicit-state BFS over real SyncObj nodes with simulated transport/clock/files'),
                   dict(name='E4', path='mc/core.py', serves_properties=['C08', 'C15'], kind_free_text='explicit-state BFS of one real object against a reference model')],
          checks=checks,
          notes='All checks run the real code of /repo working tree (sys.path), nothing is built. See DESIGN.md.',
